@@ -7,6 +7,7 @@ package main
 
 import (
 	"encoding/json"
+	"reflect"
 
 	"github.com/0xrawsec/sod"
 
@@ -37,8 +38,19 @@ func (t Typ) fromRec(r *shape.Rec) sod.Object {
 		return r
 	}
 	o := t.mk()
-	b, _ := json.Marshal(r)
-	json.Unmarshal(b, o)
+	b, err := json.Marshal(r)
+	if err != nil {
+		// an unserialisable float (NaN / Inf in F): carried over by hand
+		r2 := *r
+		r2.F = 0
+		b, _ = json.Marshal(&r2)
+		json.Unmarshal(b, o)
+		if v := reflect.ValueOf(o).Elem().FieldByName("F"); v.IsValid() && v.Kind() == reflect.Float64 && v.CanSet() {
+			v.SetFloat(r.F)
+		}
+	} else {
+		json.Unmarshal(b, o)
+	}
 	o.Initialize(r.UUID())
 	return o
 }
